@@ -232,7 +232,7 @@ META = {
                    "by id, both axes) is run with the stub RNG: retained ids, per-vector sums along the requested axis, bounds, dropped empty "
                    "vectors, by-id min(n,N) with values unchanged, one Generator seeded with exactly the given seed, input unchanged; the generator API (util.generate_subsamples): input unchanged after the first yield, the second yield checked like a direct call.",
     'encoded': {'biom/_subsample.pyx': ['subsample', '_subsample_without_replacement', '_subsample_with_replacement'],
-                'biom/table.py': ['subsample', '_get_sparse_data', 'filter', 'copy'], 'biom/_filter.pyx': ['_filter']},
+                'biom/table.py': ['subsample', '_get_sparse_data', 'filter', 'copy'], 'biom/_filter.pyx': ['_filter'], 'biom/util.py': ['generate_subsamples']},
     'bounds': {'quick': {'kernel': '2 vectors x <=3 entries, n<=3, counts unbounded', 'table': '2x2 count tables, <=1 explicit zero, n in 1..2 (by id 1..3)'},
                'thorough': {'kernel': 'also 1x4 entries n<=4, 3x2', 'table': '2x2, 2x3, 3x2; n<=3'}},
     'outside': ['uniformity / unbiasedness and seed-determinism of numpy.random.Generator (trusted contract of the stub)',
